@@ -818,6 +818,9 @@ def unaryOp (n : Name) (r : Val) (m : M) : Option OpRes :=
   else if n == n!"scriptdone" || n == n!"isnull" then uop_scriptdone r m
   else if n == n!"terminate" then uop_terminate r m
   else if n == n!"waituntil" then uop_waituntil r m
+  -- `toFixed N`: selects how numbers are printed until the run ends (the mode is taken back with the run; the model
+  -- prints in the default mode, so generated programs print no number behind it in the same run)
+  else if n == n!"tofixed" then (match r with | .num _ => pure' m .nil | _ => none)
   else none
 
 /-! ### binary operators -/
